@@ -102,6 +102,7 @@ def verify_function(job):
             c = reg[key]
             qual = c.get("function", key.split("#")[0])
             ctx = core.Ctx(qual, c, reg, budget=budget, label=key, prop=prop)
+        ctx.model_value = model_value
         try:
             ctx.run()
         except core.Unsupported as e:
@@ -125,11 +126,15 @@ def verify_function(job):
                 fn = os.path.join(outdir, re.sub(r"[^A-Za-z0-9_.-]+", "_", "%s__%s__%d" % (key, o.name[:80], k)) + ".smt2")
                 try:
                     with open(fn, "w") as f:
-                        f.write(core.to_smt2(o.hyps, o.goal))
+                        f.write(o.smt2_text if o.smt2_text else core.to_smt2(o.hyps, o.goal))
                     d["smt2"] = fn
                 except Exception:
                     pass
-            if o.status == "failed" and o.model is not None:
+            if o.status == "failed" and o.model_args is not None:
+                d["model_args"] = o.model_args          # projected in the proving process (parallel discharge)
+            elif o.status == "failed" and o.model_error:
+                d["model_args_error"] = o.model_error
+            elif o.status == "failed" and o.model is not None:
                 try:
                     d["model_args"] = {p: model_value(o.model, v) for p, v in ctx.old_env.items()}
                 except Exception as e:
@@ -163,6 +168,12 @@ def run_jobs(jobs, limit):
     results = []
     pending = list(jobs)
     running = []
+    # obligations are proved in forked children of the per-function workers: at most KVC_PAR per function (default 6) and NCPU in all
+    from kvc import core
+    if "KVC_PAR" not in os.environ:
+        core.PAR = 6
+    if core.PAR > 1:
+        core.SOLVER_SLOTS = mp.BoundedSemaphore(max(2, (os.cpu_count() or 4)))
     while pending or running:
         while pending and len(running) < 14:
             job = pending.pop(0)
@@ -293,7 +304,7 @@ def main():
     skipped_quick = [e[1] for e in cfg.DEDUCTIVE if len(e) > 2 and e[2] == "thorough" and tier == "quick"]
     jobs = [(e[0], e[1], budget, os.path.join(outdir, "vc"), prop) for e in cfg.DEDUCTIVE
             if (not a.only or a.only in e[1]) and not (len(e) > 2 and e[2] == "thorough" and tier == "quick")]
-    results = run_jobs(jobs, 420 if tier == "quick" else 2400)
+    results = run_jobs(jobs, 900 if tier == "quick" else 3600)
 
     # ---- expected floor (vacuity / stale contract guard)
     exp_path = os.path.join(ROOT, "contracts", "EXPECTED.json")
@@ -470,7 +481,10 @@ def main():
     ev = {"property_id": prop, "tier": tier, "seed": seed, "level": level, "coverage": cov,
           "assumptions": STANDING + list(getattr(cfg, "ASSUMPTIONS", [])), "wall_s": round(time.time() - t0, 2),
           "violations": nviol}
-    json.dump(ev, open(os.path.join(ROOT, "evidence", "%s.json" % prop), "w"), indent=1, default=str)
+    # evidence/ describes runs against /repo only; runs against a scratch copy (KVC_REPO, used by the self-tests) go to out/
+    evdir = os.path.join(ROOT, "evidence") if os.path.realpath(REPO) == "/repo" else os.path.join(ROOT, "out", "evidence_scratch")
+    os.makedirs(evdir, exist_ok=True)
+    json.dump(ev, open(os.path.join(evdir, "%s.json" % prop), "w"), indent=1, default=str)
     print("%s: %d/%d obligations discharged over %d functions; bounded cases=%s; undecided=%d; violations=%d; %.1fs" % (
         prop, n_dis, n_obl, len(funcs), (bounded or {}).get("cases"), len(undecided), nviol, time.time() - t0))
     if engine_errors and exit_code == 0:
